@@ -13,6 +13,30 @@ NOTES = ("Every check: build from /repo's working tree -> tlc MC_* -> tlc-genera
          "Exit 2 = tool error (never a VIOLATION). Known findings: /verif/known_findings.json.")
 NOT_APPLICABLE = {}
 CHECKS = {
+    "C01": {
+        "level": "model_checking",
+        "technique": "TLA+ spec of the file tree, POSIX resolution and the lookup (Fs, Static) model-checked by TLC; TLC-enumerated targets x worlds replayed on both real entry points; responses validated by TLC (Trace_Static, C01Violations); Fs model validated against the OS",
+        "text": "TLC proves on the design that the contained lookup never selects an outside node except through an owner's link (52k world x path states; the implementation-shaped variant is refuted with /../s0). Every target of <= K segments over a 15-token alphabet on 8 worlds and ~1.4k climbing skeletons x leads/query/fragment/method/Range decorations on 12 worlds run through Server::process and Server::process_request; each response is judged by the spec (reserved secret byte values, climbing => error status). Seeded random deeper worlds add the code -> spec direction.",
+        "note": "Trusted: TLC, projector (status, set of byte values >= 128), tree materialiser. Fs!Resolve is checked against std::fs::metadata on every path of the run (a mismatch is a tool error).",
+    },
+    "C02": {
+        "level": "model_checking",
+        "technique": "TLA+ spec of lookup / content pattern / MIME table (Static, Fs, MimeTable); TLC-derived paths of menu worlds replayed on Server::process; full responses validated by TLC (C02Violations); seeded random worlds",
+        "text": "All paths derived from three menu worlds (every node, trailing slash, child of file, near-miss, extra slash, .html stem, through directory links) x 4 query/fragment forms, plus random worlds with non-ASCII names and sizes around 8192/10000: status, exact body bytes (spec-defined pattern with all 256 values), Content-Length, Content-Type by final extension, 404 never another file or a listing.",
+        "note": "Trusted: TLC, projector, materialiser, the MIME table transcribed once from the pinned tree. Reserved routes (/, /style.css, ...) and the statement's silent corner (index-less directory with sibling .html) are left free.",
+    },
+    "C03": {
+        "level": "model_checking",
+        "technique": "TLA+ range algebra (Static: InFile/Slice/CRParse/MultiParts) model-checked by TLC (MC_Range); TLC-enumerated Range headers x file lengths replayed on Server::process; 206/416 responses incl. multipart bodies parsed and validated by TLC",
+        "text": "Every single range-spec with offsets from {0,1,L-2,L-1,L,L+1,u64max,>u64max,junk} for L in {0,1,2,3,10,8191,8192,8193,70000}, all pairs (thorough: triples) over a reduced set, whitespace / wrong unit / empty list; labels, sizes, exact slice bytes, part order and multipart structure are checked by spec operators on the raw bytes.",
+        "note": "Known finding KF-C03-end-is-length (Content-Range end = L) is matched by a part-by-part diagnosis computed in the spec (parts in {ok,endL}); any other deviation is a VIOLATION.",
+    },
+    "C09": {
+        "level": "model_checking",
+        "technique": "relational trace validation in TLA+ (Trace_Static keeps the last GET response per entry point; C09Violations relates HEAD/OPTIONS to it; Cors!CorsViolations for the preflight grants); TLC-generated servable paths replayed as GET/HEAD/OPTIONS triples on both entry points",
+        "text": "Every servable path of two menu worlds (files, directory indexes, .html fallbacks, via links, built-in assets) x {prod, legacy} x Range x Origin x preflight headers is run as GET, HEAD, OPTIONS; HEAD must equal GET in status and headers (timestamp excluded) with the GET body's Content-Length and no body; OPTIONS must be a bodiless success with the configured preflight grants.",
+        "note": "Default configuration (allow-all CORS) in the harness process.",
+    },
     "C07": {
         "level": "model_checking",
         "technique": "TLA+ spec of the pool (Pool.tla) model-checked by TLC (safety + liveness, spec mutants refuted); TLC-simulated schedules replayed step by step on the real ThreadPool through cfg(rws_verif) gates; free-running hook traces validated by TLC (Trace_Pool)",
